@@ -18,29 +18,6 @@ import (
 type xcase struct {
 	c.Case
 	needs []string // names of shared definitions, in the order of first use
-	hot   bool     // the real code opened a string that is not textually a genuine one of the case, or
-	// LoadSession misbehaved: the judgement will be non-zero (known finding or violation)
-}
-
-// orderCases keeps the corpus (first nCorpus cases) in place and moves the hot generated cases in
-// front of the others. Reason: CorrBase.run_judge reports indices as unary nat; with coqc's default
-// 8 MB stack a reported index above ~30 000 overflows. With this order large indices carry
-// judgement 0 on an unchanged tree, and if one does not, coqc fails on that shard and bin/check.py
-// reports a broken obligation - the check still fails, never passes wrongly.
-func orderCases(cases []xcase, nCorpus int) []xcase {
-	out := make([]xcase, 0, len(cases))
-	out = append(out, cases[:nCorpus]...)
-	for _, cs := range cases[nCorpus:] {
-		if cs.hot {
-			out = append(out, cs)
-		}
-	}
-	for _, cs := range cases[nCorpus:] {
-		if !cs.hot {
-			out = append(out, cs)
-		}
-	}
-	return out
 }
 
 // writeShards is common.WriteShards (same files, same R / KL protocol read by bin/check.py) plus a
@@ -80,6 +57,8 @@ func writeShards(dir, corrModule string, cases []xcase, defs map[string]string, 
 		w := bufio.NewWriter(f)
 		fmt.Fprintf(w, "From V Require Import Base CorrBase %s.\nOpen Scope N_scope.\n", corrModule)
 		fmt.Fprintf(w, "(* shard %d: cases %d..%d *)\n", k, start, end-1)
+		// indices are shard-local (a large unary nat base overflows coqc's stack on read-back); check.py adds BASE
+		fmt.Fprintf(w, "(* BASE %d *)\nSet Printing Width 1000000.\nDefinition base_index : nat := 0%%nat.\n", start)
 		seen := map[string]bool{}
 		for i := start; i < end; i++ {
 			for _, n := range cases[i].needs {
@@ -89,7 +68,6 @@ func writeShards(dir, corrModule string, cases []xcase, defs map[string]string, 
 				}
 			}
 		}
-		fmt.Fprintf(w, "Definition base_index : nat := %d%%nat.\n", start)
 		fmt.Fprintf(w, "Definition cases : list case := [\n")
 		for i := start; i < end; i++ {
 			if i > start {
